@@ -42,7 +42,7 @@ theorem istep_out_enq (s s' : IState) (a : IAct) (e : List Eff) (h : istep s a =
        simp [setInst, setMgr, addLog, addOut, finish, replied, ienqs])
 
 /-- the effect-lifting function folded by `liftItem`. -/
-def liftF (x : String) (acc : DState × List GEff) (e : Eff) : DState × List GEff :=
+def gliftF (x : String) (acc : DState × List GEff) (e : Eff) : DState × List GEff :=
   match e with
   | .enqueue l => ({ acc.1 with sendQ := acc.1.sendQ ++ [l] }, acc.2 ++ [.enqueue l])
   | .submit k =>
@@ -54,25 +54,25 @@ def liftF (x : String) (acc : DState × List GEff) (e : Eff) : DState × List GE
 theorem liftItem_eq (s : DState) (x : String) (a : IAct) :
     liftItem s x a = match istep (getItem s x) a with
       | none => none
-      | some (i', effs) => some (effs.foldl (liftF x) (putItem s x i', [])) := by
+      | some (i', effs) => some (effs.foldl (gliftF x) (putItem s x i', [])) := by
   unfold liftItem
   cases istep (getItem s x) a with
   | none => rfl
   | some p => obtain ⟨i', effs⟩ := p; rfl
 
-theorem foldl_liftF (x : String) (effs : List Eff) (acc : DState × List GEff) :
-    (effs.foldl (liftF x) acc).1.items = acc.1.items ∧
-    (effs.foldl (liftF x) acc).1.sendQ = acc.1.sendQ ++ ienqs effs ∧
-    (effs.foldl (liftF x) acc).1.written = acc.1.written ∧
-    (effs.foldl (liftF x) acc).1.wpc = acc.1.wpc ∧
-    genqs (effs.foldl (liftF x) acc).2 = genqs acc.2 ++ ienqs effs := by
+theorem foldl_gliftF (x : String) (effs : List Eff) (acc : DState × List GEff) :
+    (effs.foldl (gliftF x) acc).1.items = acc.1.items ∧
+    (effs.foldl (gliftF x) acc).1.sendQ = acc.1.sendQ ++ ienqs effs ∧
+    (effs.foldl (gliftF x) acc).1.written = acc.1.written ∧
+    (effs.foldl (gliftF x) acc).1.wpc = acc.1.wpc ∧
+    genqs (effs.foldl (gliftF x) acc).2 = genqs acc.2 ++ ienqs effs := by
   induction effs generalizing acc with
   | nil => simp [ienqs]
   | cons e effs ih =>
     rw [List.foldl_cons]
-    obtain ⟨h1, h2, h3, h4, h5⟩ := ih (liftF x acc e)
+    obtain ⟨h1, h2, h3, h4, h5⟩ := ih (gliftF x acc e)
     rw [h1, h2, h3, h4, h5]
-    cases e <;> simp [liftF, ienqs, genqs]
+    cases e <;> simp [gliftF, ienqs, genqs]
 
 
 theorem putItem_frame (s : DState) (x : String) (i : IState) :
@@ -90,7 +90,7 @@ theorem liftItem_char (s : DState) (x : String) (a : IAct) (s' : DState) (ge : L
     obtain ⟨i', e⟩ := p
     rw [hi] at h
     simp only [Option.some.injEq] at h
-    obtain ⟨h1, h2, h3, h4, h5⟩ := foldl_liftF x e (putItem s x i', [])
+    obtain ⟨h1, h2, h3, h4, h5⟩ := foldl_gliftF x e (putItem s x i', [])
     obtain ⟨p1, p2, p3⟩ := putItem_frame s x i'
     rw [h] at h1 h2 h3 h4 h5
     simp only [p1, p2, p3] at h2 h3 h4
